@@ -124,6 +124,14 @@ def _c15_checks(d, h, mi, s):
     jdt = J.julianday(dt)
     if abs(jdt - (jd + (h * 3600 + mi * 60 + s) / 86400)) > 1e-8:
         return {"clause": "time of day adds seconds/86400", "datetime": str(dt), "got": jdt}
+    import gens as _g
+    jds = J.julianday(_g.as_sub(dt))
+    if jds != jdt:
+        return {"clause": "an instance of a datetime subclass means the same as the plain datetime",
+                "datetime": str(dt), "got": jds, "want": jdt}
+    if J.julianday(_g.as_sub(d)) != jd:
+        return {"clause": "an instance of a date subclass means the same as the plain date",
+                "date": str(d), "got": J.julianday(_g.as_sub(d)), "want": jd}
     # Julian-calendar variant: offset 2 - A + A//4
     yy = d.year - 1 if d.month <= 2 else d.year
     a = yy // 100
@@ -666,6 +674,8 @@ _C17_SCANNED = False
 def _coord_value(text, limit):
     """independent reading of the coordinate texts the episodes use: d°m'[NSEW] or a numeral"""
     import re
+    if isinstance(text, (int, float)):
+        return max(-limit, min(limit, float(text)))
     m = re.fullmatch(r"(\d{1,3})\u00b0(?:(\d{1,2})')?([NSEW])?", text)
     if m:
         v = int(m.group(1)) + (int(m.group(2)) / 60.0 if m.group(2) else 0.0)
@@ -694,9 +704,14 @@ def _c17_episode(rng, steps):
                   rng.choice(corr_geo.COORDS[:6]))
         if "," in fields[0] or fields[0].startswith("#") or fields[0] != fields[0].strip():
             continue
-        form = rng.randint(0, 4)
+        form = rng.randint(0, 5)
         extra = None
-        if form == 4:
+        if form == 5:
+            # a field tuple (or list) whose coordinates are numbers, not text
+            la, lo = rng.choice([12.5, -33, 0, 89.75]), rng.choice([-100.25, 77, 179.5, 0.0])
+            fields = (fields[0], fields[1], fields[2], la, lo)
+            val = [tuple(fields)] if rng.random() < 0.5 else [list(fields)]
+        elif form == 4:
             # a LIST whose string item holds two lines
             f2 = corr_geo.rand_item(rng, None)
             f2 = (f2[0], f2[1], f2[2], rng.choice(corr_geo.COORDS[:6]), rng.choice(corr_geo.COORDS[:6]))
@@ -712,7 +727,7 @@ def _c17_episode(rng, steps):
                 continue
             extra = f2
             val = "# two records\n" + ",".join(fields) + "\n\n" + ",".join(f2) + "\n"
-        else:
+        elif form != 5:
             val = ",".join(fields) if form == 0 else ([",".join(fields)] if form == 1 else [tuple(fields)])
         history.append(repr(val))
         try:
@@ -1443,6 +1458,16 @@ def _c05_one(lat, lon, d, z):
     if dist > 12 * 3600 + 60:
         return "midnight %s is %.2f h from 00:00 of %s in the zone (more than 12 h)" % (
             m.isoformat(), dist / 3600.0, d)
+    # the requested date spelled as a datetime (a datetime is a date): still the midnight nearest
+    # to 00:00 of that calendar date
+    hh = (d.toordinal() * 7 + 5) % 24
+    for darg in (datetime.datetime(d.year, d.month, d.day, hh, 30),
+                 datetime.datetime(d.year, d.month, d.day, 23, 10, tzinfo=datetime.timezone.utc)):
+        m2 = sun.midnight(o, darg, tz)
+        dist2 = abs((m2 - start).total_seconds())
+        if dist2 > 12 * 3600 + 60:
+            return "midnight for the date given as %r is %s, %.2f h from 00:00 of %s in the zone (more than 12 h)" % (
+                darg, m2.isoformat(), dist2 / 3600.0, d)
     return None
 
 
@@ -1479,16 +1504,28 @@ def _c08_one(lat, lon, naive_utc, z):
     o = Observer(lat, lon)
     u = naive_utc.replace(tzinfo=datetime.timezone.utc)
     loc = u.astimezone(z.tzinfo)
+    import gens as _g
+    import zones as _z
+    others = [(loc, "written as %s" % loc.isoformat()),
+              (_g.as_sub(naive_utc), "given as an instance of a datetime subclass (naive)"),
+              (_g.as_sub(loc), "written as %s, an instance of a datetime subclass" % loc.isoformat())]
+    if getattr(z, "iana", None):
+        loc2 = u.astimezone(_z.docs(z))
+        others.append((loc2, "written as %s with a user-defined tzinfo for %s" % (loc2.isoformat(), z.iana)))
     for name, f in (("elevation", sun.elevation), ("zenith", sun.zenith), ("azimuth", sun.azimuth)):
-        a, b, c = f(o, naive_utc), f(o, u), f(o, loc)
+        a, b = f(o, naive_utc), f(o, u)
         da = abs(a - b)
-        db = abs(b - c)
         if name == "azimuth":
-            da, db = min(da, 360 - da), min(db, 360 - db)
+            da = min(da, 360 - da)
         if da > 1e-6:
             return "%s: naive %r vs aware UTC %r" % (name, a, b)
-        if db > 1e-6:
-            return "%s: %r in UTC vs %r for the same instant written as %s" % (name, b, c, loc.isoformat())
+        for dtx, how in others:
+            c = f(o, dtx)
+            db = abs(b - c)
+            if name == "azimuth":
+                db = min(db, 360 - db)
+            if db > 1e-6:
+                return "%s: %r in UTC vs %r for the same instant %s" % (name, b, c, how)
     return None
 
 
@@ -1579,15 +1616,20 @@ def _c12_one(lat, lon, naive_utc, z, o=None):
         return "elevation %r outside [-90, 90]" % (el,)
     if abs(ze - (90.0 - el)) > 1e-9:
         return "zenith %r is not 90 - elevation %r" % (ze, el)
+    import gens as _g
+    import zones as _z
+    spellings = [u, loc, _g.as_sub(naive_utc), _g.as_sub(loc)]
+    if getattr(z, "iana", None):
+        spellings.append(u.astimezone(_z.docs(z)))
     for name, f, ref in (("azimuth", moon.azimuth, az), ("elevation", moon.elevation, el)):
-        for spelled in (u, loc):
+        for spelled in spellings:
             v = f(o, spelled)
             dv = abs(v - ref)
             if name == "azimuth":
                 dv = min(dv, 360.0 - dv)
             if dv > 1e-6:
-                return "%s %r for %s differs from %r for the same instant as naive UTC" % (
-                    name, v, spelled.isoformat(), ref)
+                return "%s %r for %s (%s, tzinfo %r) differs from %r for the same instant as naive UTC" % (
+                    name, v, spelled.isoformat(), type(spelled).__name__, spelled.tzinfo, ref)
     alt, aaz = M.alt_az(lat, lon, u)
     # Meeus ch. 47 (another lunar theory); residual on the unchanged tree ≤ 0.021° over 40 000
     # random observers and instants incl. the poles — the property's 0.05° is used as it stands
@@ -1651,7 +1693,7 @@ def _moon_alt(lat, lon, t):
     return M.alt_az(lat, lon, t)[0]
 
 
-def _c13_one(lat, lon, d, z, which, given=None):
+def _c13_one(lat, lon, d, z, which, given=None, hhmm=None):
     import astral.moon as moon
     from astral import Observer
     o = Observer(lat, lon)
@@ -1660,8 +1702,12 @@ def _c13_one(lat, lon, d, z, which, given=None):
             return None
         t = given[1]
     else:
+        darg = d
+        if hhmm is not None:
+            # the date spelled as a datetime with a time of day: it means its calendar date
+            darg = datetime.datetime(d.year, d.month, d.day, hhmm[0], hhmm[1])
         try:
-            t = getattr(moon, which)(o, d, z.tzinfo)
+            t = getattr(moon, which)(o, darg, z.tzinfo)
         except ValueError:
             return None
     if t is None:
@@ -1688,22 +1734,25 @@ def search_C13(rng, deadline, broken):
         d = gens.rand_date(rng, wide=False)
         z = zones.rand_zone(rng, d)
         which = rng.choice(["moonrise", "moonset"])
+        hhmm = (rng.randint(0, 23), rng.randint(0, 59)) if rng.random() < 0.35 else None
         try:
-            r = _c13_one(lat, lon, d, z, which)
+            r = _c13_one(lat, lon, d, z, which, hhmm=hhmm)
         except Exception as exc:  # noqa: BLE001
             r = "raised %r" % (exc,)
         if r:
-            return {"clause": r, "latitude": lat, "longitude": lon, "date": d.isoformat(),
-                    "zone": z.describe(), "which": which}
+            return {"clause": r + (" [date given as a datetime at %02d:%02d]" % hhmm if hhmm else ""),
+                    "latitude": lat, "longitude": lon, "date": d.isoformat(),
+                    "zone": z.describe(), "which": which, "hhmm": list(hhmm) if hhmm else None}
     return None
 
 
 def replay_C13(fi):
     return _c13_one(fi["latitude"], fi["longitude"], datetime.date.fromisoformat(fi["date"]),
-                    _zone_from_descr(fi["zone"]), fi["which"]) is None
+                    _zone_from_descr(fi["zone"]), fi["which"],
+                    hhmm=tuple(fi["hhmm"]) if fi.get("hhmm") else None) is None
 
 
-def _c14_one(lat, lon, d, z, which, given=None):
+def _c14_one(lat, lon, d, z, which, given=None, aware=None):
     import astral.moon as moon
     from astral import Observer
     o = Observer(lat, lon)
@@ -1714,6 +1763,12 @@ def _c14_one(lat, lon, d, z, which, given=None):
             if given[0] != "ok":
                 raise given[1]
             got = given[1]
+        elif aware is not None:
+            # the date spelled as an aware datetime (hour, minute, offset in minutes): it means its
+            # own calendar date; the zone argument stays the output zone
+            darg = datetime.datetime(d.year, d.month, d.day, aware[0], aware[1],
+                                     tzinfo=datetime.timezone(datetime.timedelta(minutes=aware[2])))
+            got = getattr(moon, which)(o, darg, tz)
         else:
             got = getattr(moon, which)(o, d, tz)
         outcome = "none" if got is None else "time"
@@ -1792,13 +1847,19 @@ def search_C14(rng, deadline, broken):
         d = gens.rand_date(rng, wide=False)
         z = zones.rand_zone(rng, d)
         which = rng.choice(["moonrise", "moonset"])
+        aware = None
+        if rng.random() < 0.3:
+            # an hour and offset at which the datetime's own date differs from its UTC date
+            offm = rng.choice([540, 600, 780, -480, -600, 330])
+            aware = (rng.choice([0, 1, 2, 3]) if offm > 0 else rng.choice([20, 21, 22, 23]), rng.randint(0, 59), offm)
         try:
-            r = _c14_one(lat, lon, d, z, which)
+            r = _c14_one(lat, lon, d, z, which, aware=aware)
         except Exception as exc:  # noqa: BLE001
             r = "raised %r" % (exc,)
         if r:
-            return {"clause": r, "latitude": lat, "longitude": lon, "date": d.isoformat(),
-                    "zone": z.describe(), "which": which}
+            return {"clause": r + (" [date given as the aware datetime %02d:%02d at UTC%+d min]" % aware if aware else ""),
+                    "latitude": lat, "longitude": lon, "date": d.isoformat(),
+                    "zone": z.describe(), "which": which, "aware": list(aware) if aware else None}
     return None
 
 
@@ -1806,7 +1867,8 @@ def replay_C14(fi):
     if "sweep_seed" in fi:
         return _c14_sweep(fi["sweep_seed"]) is None
     return _c14_one(fi["latitude"], fi["longitude"], datetime.date.fromisoformat(fi["date"]),
-                    _zone_from_descr(fi["zone"]), fi["which"]) is None
+                    _zone_from_descr(fi["zone"]), fi["which"],
+                    aware=tuple(fi["aware"]) if fi.get("aware") else None) is None
 
 
 
@@ -2072,17 +2134,31 @@ def _c18_scan(db):
         if abs(diff) > 2.5:
             return "record %s: zone %s (UTC%+.2f) is %.2f h from mean solar time at longitude %.3f" % (
                 ident, r.timezone, std, diff, r.longitude)
-        days = range(0, 365, 5) if abs(r.longitude) > 170.0 else range(0, 365, 91)
+        if abs(r.longitude) > 170.0:
+            days = list(range(0, 730))                 # every day of two years next to the date line
+        else:
+            days = sorted(set(range(0, 365, 30)) | {30, 58, 59, 89, 119, 150, 180, 211, 242, 272, 303, 333, 364})
         for dd in days:
-            day = datetime.date(2021, 1, 1) + datetime.timedelta(days=dd)
+            day = datetime.date(2026, 1, 1) + datetime.timedelta(days=dd)
             try:
                 noon = sun.noon(Observer(r.latitude, r.longitude), day,
                                 datetime.timezone(datetime.timedelta(hours=std)))
             except Exception as exc:  # noqa: BLE001
                 return "record %s: solar noon cannot be computed for %s (%r)" % (ident, day, exc)
-            mins = noon.hour * 60 + noon.minute
+            # minutes from 00:00 standard time of the day that was asked for
+            mins = (noon.replace(tzinfo=None) - datetime.datetime(day.year, day.month, day.day)).total_seconds() / 60.0
             if not (9 * 60 + 10 <= mins <= 14 * 60 + 50):
-                return "record %s: solar noon on %s at %s standard time" % (ident, day, noon.time())
+                return "record %s: solar noon computed for %s is at %s standard time" % (
+                    ident, day, noon.replace(tzinfo=None).isoformat(sep=" "))
+            # … and asked for in the record's own zone, given the way the record gives it (by name)
+            try:
+                noon_n = sun.noon(Observer(r.latitude, r.longitude), day, r.timezone)
+            except Exception as exc:  # noqa: BLE001
+                return "record %s: solar noon for %s cannot be computed in the record's zone %r given by name (%r)" % (
+                    ident, day, r.timezone, exc)
+            if noon_n != noon:
+                return "record %s: solar noon for %s is %s in the record's zone by name but %s at its standard offset" % (
+                    ident, day, noon_n.isoformat(), noon.isoformat())
         if (r.name, r.region) in seen:
             return "(name, region) pair %s occurs twice" % (ident,)
         seen[(r.name, r.region)] = True
@@ -2206,6 +2282,27 @@ def _c19_location(seed):
         ("solar_elevation", lambda: loc.solar_elevation(naive, elev), lambda: sun.elevation(o, inzone)),
         ("solar_zenith", lambda: loc.solar_zenith(naive, elev), lambda: 90.0 - sun.elevation(o, inzone)),
     ]
+    # aware datetimes are taken as they are — also at offset zero, also when the zone differs
+    # from the location's; a naive reading inside a repeated hour follows its fold; the phase of
+    # a datetime is the phase at that time of day
+    awz = naive.replace(tzinfo=datetime.timezone.utc)
+    awo = naive.replace(tzinfo=zoneinfo.ZoneInfo(rng.choice(tzs)))
+    pairs += [
+        ("solar_elevation (aware, +00:00)", lambda: loc.solar_elevation(awz, elev), lambda: sun.elevation(o, awz)),
+        ("solar_azimuth (aware, +00:00)", lambda: loc.solar_azimuth(awz, elev), lambda: sun.azimuth(o, awz)),
+        ("solar_elevation (aware, %s)" % awo.tzinfo, lambda: loc.solar_elevation(awo, elev),
+         lambda: sun.elevation(o, awo)),
+        ("moon_phase (datetime)", lambda: loc.moon_phase(naive), lambda: moon.phase(naive)),
+        ("moon_phase (aware datetime)", lambda: loc.moon_phase(awo), lambda: moon.phase(awo)),
+    ]
+    import zones as _zones
+    amb = _zones.ambiguous_wall(rng, _zones.iana(loc.timezone))
+    if amb is not None:
+        for fo in (0, 1):
+            nv = amb.replace(fold=fo)
+            iz = nv.replace(tzinfo=zoneinfo.ZoneInfo(loc.timezone))
+            pairs.append(("solar_elevation (naive %s fold=%d)" % (nv.isoformat(), fo),
+                          lambda nv=nv: loc.solar_elevation(nv, elev), lambda iz=iz: sun.elevation(o, iz)))
     for name, a, b in pairs:
         ra, rb = _try(a), _try(b)
         if ra[0] != rb[0] or (ra[0] == "ok" and ra[1] != rb[1] and not (
@@ -2420,6 +2517,46 @@ def _c09_one(seed):
                     return ("%s with the date omitted at clock reading %s (after earlier readings of the same "
                             "UTC day): %s, with today's date in the zone (%s): %s" % (
                                 fn.__name__, now2.isoformat(), a, now2.astimezone(tz).date(), b))
+    # … and at clock readings around the local midnight next to one of the zone's offset changes
+    import zones as _zones
+    zs = _zones.iana(name)
+    if len(zs.utc_table) > 1:
+        for _ in range(2):
+            t_us, _o = rng.choice(zs.utc_table[1:])
+            tr = datetime.datetime(1, 1, 1, tzinfo=datetime.timezone.utc) + \
+                datetime.timedelta(microseconds=t_us - 864 * 10**8)
+            for plus in (0, 1):
+                ld = tr.astimezone(tz).date() + datetime.timedelta(days=plus)
+                if not _zones.in_span(ld):
+                    continue
+                mid = datetime.datetime(ld.year, ld.month, ld.day, tzinfo=tz).astimezone(datetime.timezone.utc)
+                for mins in (-70, -35, -5, 5, 35, 70):
+                    now3 = mid + datetime.timedelta(minutes=mins)
+                    with corr_norm.FrozenClock(now3):
+                        for fn in (sun.noon, sun.sunset):
+                            a = _try(lambda: fn(o, tzinfo=tz))
+                            b = _try(lambda: fn(o, now3.astimezone(tz).date(), tzinfo=tz))
+                            if a != b:
+                                return ("%s with the date omitted at clock reading %s (%s in %s, next to an "
+                                        "offset change): %s, with today's date in the zone: %s" % (
+                                            fn.__name__, now3.isoformat(), now3.astimezone(tz).isoformat(),
+                                            name, a, b))
+    # a zone given as a user-defined tzinfo object with the same offsets as the named zone
+    dz = _zones.docs(zs)
+    for fn in (sun.sunrise, sun.sunset, sun.noon):
+        r = same(lambda fn=fn: fn(o, d, dz), lambda fn=fn: fn(o, d, tz),
+                 fn.__name__ + " user-defined tzinfo vs ZoneInfo of the same zone", tz)
+        if r:
+            return r
+    # the observer's elevation written as an int, a float or a numeric string is the same height
+    h = rng.choice([350, 1000, 2000, rng.randint(1, 4000)])
+    obs_forms = [Observer(o.latitude, o.longitude, h), Observer(o.latitude, o.longitude, float(h)),
+                 Observer(o.latitude, o.longitude, str(h))]
+    for fn in (sun.sunrise, sun.sunset):
+        res = [_try(lambda ob=ob: fn(ob, d, tz)) for ob in obs_forms]
+        if not (res[0] == res[1] == res[2]):
+            return "%s at elevation %d given as int / float / str: %s / %s / %s" % (
+                fn.__name__, h, res[0], res[1], res[2])
     # numeric strings in every spelling float() accepts denote the same angle as the float
     for _ in range(12):
         v = rng.choice([rng.uniform(-90, 90), rng.uniform(-1e-3, 1e-3), rng.uniform(-9, 9), 5e-05, 51.4733])
